@@ -148,7 +148,7 @@ func c19Tuples() []c19Tuple {
 		}
 		digis = append(digis, d)
 	}
-	targets := []string{"LA5NTA", "la5nta-5", "wl2k", "AB", "A"}
+	targets := []string{"LA5NTA", "la5nta-5", "wl2k", "AB", "A", ""} // "": the path ends in a slash - no target at all
 	queries := []string{"", "host=ax0", "host=%2Fdev%2FttyS0", "bw=500", "a=1&a=2", "host=tnc%3A8000&freq=7.1"}
 	var out []c19Tuple
 	for _, s := range schemes {
